@@ -180,6 +180,12 @@ def check(ctx):
                 bad = "non-zero widths requested but nothing is padded"
             elif not must_pad and (calls or not (isinstance(o.value, Obj) and o.value.name == "da" and not [e for e in o.value.eff if e[0].startswith("PAD")])):
                 bad = "all widths are zero but the array is padded / not returned as given"
+            elif isinstance(o.value, Obj):
+                # what pad() returns is the (coordinate-stripped) input, padded - nothing else may touch the values
+                neutral = ("reset_coords", "reset_index", "drop_vars", "copy", "transpose", "PAD_BASIC", "PAD_FACE")
+                others = [e[0] for e in o.value.eff if e[0] not in neutral]
+                if o.value.name != "da" or others:
+                    bad = f"pad() returns {o.value.name!r} after {[e[0] for e in o.value.eff]}: besides stripping coordinates and padding, the values go through {others or 'another array'}"
         if bad:
             ctx.report("R02.5", padfi, inst, bad)
         else:
